@@ -1,4 +1,4 @@
-(** Simulation, part 4: the strict decoder follows the specification's reading on every structure type:
+(** Simulation, part 4 (both modes; in warn mode out-of-range leaves are reported and decoding goes on): the decoder follows the specification's reading on every structure type:
     sp_ty succeeds with only valid leaves ==> dec_ty emits exactly those items and charges every live region. *)
 From Coq Require Import ZArith List String Bool Lia ZifyBool.
 From TV Require Import Layout.Types Base.Bytes Model.Monad Model.Constraints Model.Ints Model.Decoder Model.Message
@@ -51,26 +51,35 @@ Definition val_ok (v : sv) (a : option value) : Prop :=
   | SNode _ _ _ => as_typed_int a = None
   end.
 
-Lemma sim_prim p pa bs v z rest s :
-  sp_prim p pa bs = Some (v, z, rest) -> valid p z = true -> wf_st s -> inp s = bs ->
+(** in strict mode every leaf must be in range; in warn mode any leaf goes *)
+Fixpoint ok_leaves (abort : bool) (v : sv) : bool :=
+  match v with
+  | SPrim _ p z => negb abort || valid p z
+  | SNode _ _ kids => forallb (ok_leaves abort) kids
+  end.
+
+Lemma sim_prim abort p pa bs v z rest s :
+  sp_prim p pa bs = Some (v, z, rest) -> negb abort || valid p z = true -> wf_st s -> inp s = bs ->
   fits (view s) (blen bs - blen rest) ->
-  ok_run (dec_prim true p pa) s (items_of v) rest (fun a => a = Some (VInt_ (pname p) z)).
+  ok_run (dec_prim abort p pa) s (items_of v) rest (fun a => a = Some (VInt_ (pname p) z)).
 Proof.
   intros Hs V W I F. destruct (sp_prim_some _ _ _ _ _ _ Hs) as (h & -> & Hl & Hw & -> & ->).
   assert (Hn : blen (h ++ rest) - blen rest = pwidth p) by (unfold blen in *; rewrite app_length; lia).
   rewrite Hn in F.
-  destruct (dec_prim_spec p pa h rest s W I ltac:(unfold blen in Hl; lia) Hw V F) as (s' & E & I' & V' & W').
-  exists (map Rd h ++ [Ev (mkEvent pa (TyN (pname p)) (Some (from_bytes (psigned p) h)))]), s', (Some (VInt_ (pname p) (from_bytes (psigned p) h))), h.
+  destruct (dec_prim_spec abort p pa h rest s W I ltac:(unfold blen in Hl; lia) Hw ltac:(intros ->; exact V) F) as (s' & E & I' & V' & W').
+  eexists _, s', (Some (VInt_ (pname p) (from_bytes (psigned p) h))), h.
   split; [exact E|]. split.
-  - cbn [items_of]. apply (sh_prim pa p (from_bytes (psigned p) h) h [] []); [unfold blen in Hl; lia|exact Hw|constructor].
+  - cbn [items_of]. rewrite <- (app_nil_r (vwarn _ _ _)).
+    apply (sh_prim pa p (from_bytes (psigned p) h) h [] []); [unfold blen in Hl; lia|exact Hw|constructor].
   - split; [exact I|]. split; [exact I'|]. split; [rewrite Hl; exact V'|]. split; [exact W'|reflexivity].
 Qed.
 
 (** ---- counted elements *)
 Section Elems.
+  Variable abort : bool.
   Variable f : path -> list Z -> option (sv * list Z).
   Variable body : path -> M (option value).
-  Hypothesis Hbody : forall p b v r s, f p b = Some (v, r) -> all_valid v = true -> wf_st s -> inp s = b ->
+  Hypothesis Hbody : forall p b v r s, f p b = Some (v, r) -> ok_leaves abort v = true -> wf_st s -> inp s = b ->
                        blen r <= blen b -> fits (view s) (blen b - blen r) -> ok_run (body p) s (items_of v) r (fun _ => True).
 
   Lemma sp_elems_len pa n : forall i bs vs rest, sp_elems f pa n i bs = Some (vs, rest) -> blen rest <= blen bs.
@@ -87,7 +96,7 @@ Section Elems.
     bind (body (pindex pa (fst st_))) (fun v => ret (fst st_ + 1, v :: snd st_)).
 
   Lemma elems_sim pa n : forall i acc bs vs rest s,
-    sp_elems f pa n i bs = Some (vs, rest) -> forallb all_valid vs = true -> wf_st s -> inp s = bs ->
+    sp_elems f pa n i bs = Some (vs, rest) -> forallb (ok_leaves abort) vs = true -> wf_st s -> inp s = bs ->
     fits (view s) (blen bs - blen rest) ->
     ok_run (iter n (step pa) (i, acc)) s (flat_map items_of vs) rest (fun _ => True).
   Proof.
@@ -110,14 +119,14 @@ Section Elems.
 
   (** [process_array] against [sp_counted] *)
   Lemma array_sim lid pa count bs v rest s :
-    sp_counted f lid pa count bs = Some (v, rest) -> all_valid v = true -> wf_st s -> inp s = bs ->
+    sp_counted f lid pa count bs = Some (v, rest) -> ok_leaves abort v = true -> wf_st s -> inp s = bs ->
     fits (view s) (blen bs - blen rest) ->
     ok_run (dec_array lid pa count body) s (items_of v) rest (fun a => as_typed_int a = None).
   Proof.
     unfold sp_counted. intros H AV W I F.
     destruct (Z.of_nat (List.length bs) <? count); [discriminate|].
     destruct (sp_elems f pa (Z.to_nat count) 0 bs) as [[vs r]|] eqn:E; [|discriminate]. injection H as <- <-.
-    cbn [all_valid] in AV. unfold dec_array.
+    cbn [ok_leaves] in AV. unfold dec_array.
     replace (items_of (SNode pa lid vs)) with ([INode pa lid] ++ (flat_map items_of vs ++ [])) by (cbn [items_of app]; rewrite app_nil_r; reflexivity).
     apply ok_bind with (mid := inp s) (P := fun _ => True); [apply ok_sev; exact W|]. intros s1 _ W1 I1 V1 _.
     apply ok_bind with (mid := r) (P := fun _ => True).
@@ -143,9 +152,9 @@ Section Elems.
 
   (** [process_tpm2b] with a list buffer against [sp_tpm2b_list] *)
   Lemma tpm2b_list_sim name szf buf szp lid pa bs v rest s :
-    sp_tpm2b_list name szf buf szp lid f pa bs = Some (v, rest) -> all_valid v = true -> wf_st s -> inp s = bs ->
+    sp_tpm2b_list name szf buf szp lid f pa bs = Some (v, rest) -> ok_leaves abort v = true -> wf_st s -> inp s = bs ->
     fits (view s) (blen bs - blen rest) ->
-    ok_run (dec_tpm2b_list true name szf buf szp lid body pa) s (items_of v) rest (fun a => as_typed_int a = None).
+    ok_run (dec_tpm2b_list abort name szf buf szp lid body pa) s (items_of v) rest (fun a => as_typed_int a = None).
   Proof.
     unfold sp_tpm2b_list. intros H AV W I F.
     destruct (sp_prim szp (pchild pa szf) bs) as [[[szv n] r1]|] eqn:Ep; [|discriminate].
@@ -154,14 +163,14 @@ Section Elems.
     injection H as <- <-.
     destruct (sp_prim_some _ _ _ _ _ _ Ep) as (h & Hbs & Hl & Hw & Hz & Hszv).
     destruct (split_at_some _ _ _ _ Es) as (Hr1 & Hrl & Hn0).
-    cbn [all_valid forallb] in AV. apply andb_prop in AV as [AVs AVl]. apply andb_prop in AVl as [AVl _].
-    assert (Vs : valid szp n = true) by (subst szv; exact AVs).
+    cbn [ok_leaves forallb] in AV. apply andb_prop in AV as [AVs AVl]. apply andb_prop in AVl as [AVl _].
+    assert (Vs : negb abort || valid szp n = true) by (subst szv; exact AVs).
     assert (HN : blen bs - blen rest' = pwidth szp + n).
     { rewrite Hbs, Hr1. unfold blen in *. rewrite !app_length. lia. }
     rewrite HN in F. destruct (fits_split _ _ _ Hw Hn0 F) as [F1 F2].
     (* 1. the size field *)
-    assert (P1 : ok_run (dec_prim true szp (pchild pa szf)) s (items_of szv) r1 (fun a => a = Some (VInt_ (pname szp) n))).
-    { apply (sim_prim szp (pchild pa szf) bs szv n r1 s Ep Vs W I).
+    assert (P1 : ok_run (dec_prim abort szp (pchild pa szf)) s (items_of szv) r1 (fun a => a = Some (VInt_ (pname szp) n))).
+    { apply (sim_prim abort szp (pchild pa szf) bs szv n r1 s Ep Vs W I).
       replace (blen bs - blen r1) with (pwidth szp) by (rewrite Hbs; unfold blen in *; rewrite app_length; lia). exact F1. }
     destruct P1 as (tr1 & s1 & a1 & c1 & E1 & Sh1 & Ic1 & I1 & V1 & W1 & ->).
     assert (Lc1 : blen c1 = pwidth szp).
@@ -171,7 +180,7 @@ Section Elems.
     destruct (new_sc_spec s1 W1) as (s2 & E2 & I2 & L2 & V2 & W2 & Len2 & G2).
     set (cid := List.length (store s1)) in *.
     assert (Fresh : ~ In cid (ids_of (view s2))) by (rewrite V2; apply fresh_not_in_view, W1).
-    destruct (set_constraint_spec cid (pchild pa szf) n s2 W2 Hn0 ltac:(lia)) as (s3 & E3 & I3 & L3 & V3 & W3 & Len3 & G3 & G3').
+    destruct (set_constraint_spec abort cid (pchild pa szf) n s2 W2 Hn0 ltac:(lia)) as (s3 & E3 & I3 & L3 & V3 & W3 & Len3 & G3 & G3').
     { rewrite V2, V1. apply Forall_forall. intros e He. right. unfold fits in F2. rewrite Forall_forall in F2. apply F2, He. }
     rewrite (map_set_entry_fresh cid n _ Fresh) in V3.
     assert (NotListed : ~ In cid (lst s3)).
@@ -186,7 +195,7 @@ Section Elems.
     { apply (array_sim lid (pchild pa buf) n region lv [] s4r Ec AVl); [exact W4|reflexivity|].
       change (view s4r) with (view s4). rewrite V4. replace (blen region - blen []) with n by (unfold blen in *; cbn; lia).
       apply Forall_app. split; [exact F2|]. constructor; [cbn; lia|constructor]. }
-    apply (ok_run_ext _ _ _ _ _ rest' _ (incr_dec_array true lid (pchild pa buf) n body Hincr)) in Parr.
+    apply (ok_run_ext _ _ _ _ _ rest' _ (incr_dec_array abort lid (pchild pa buf) n body Hincr)) in Parr.
     cbn [app] in Parr.
     assert (Es4 : ext s4r rest' = s4).
     { unfold ext, s4r. cbn [inp store lst]. destruct s4 as [i4 st4 l4]. cbn [inp store lst] in *. f_equal. congruence. }
@@ -197,7 +206,7 @@ Section Elems.
       rewrite !app_length in Ic5. unfold blen in *. lia. }
     rewrite Lc5, V4, bump_app, bump_bump in V5. cbn [bump map bump_entry] in V5. rewrite Z.add_0_l in V5.
     (* 4. the region is exactly filled *)
-    destruct (assert_done_spec cid n (bump (pwidth szp + n) (view s)) s5 W5 V5) as (s6 & E6 & I6 & L6 & V6 & W6 & _).
+    destruct (assert_done_spec abort cid n (bump (pwidth szp + n) (view s)) s5 W5 V5) as (s6 & E6 & I6 & L6 & V6 & W6 & _).
     { rewrite ids_bump. intros Hx. apply Fresh. rewrite V2, V1, ids_bump. exact Hx. }
     (* assemble *)
     exists (sev pa (TyN name) :: tr1 ++ tr5), s6, (Some (VStruct_ (TyN name) [(szf, Some (VInt_ (pname szp) n)); (buf, a5)])), (c1 ++ c5).
@@ -216,6 +225,7 @@ End Elems.
 (** ---- the whole structure-type decoder *)
 Section Main.
   Variable T : tables.
+  Variable abort : bool.
 
   (** unfolding equations (the mutual fixpoints are kept folded) *)
   Lemma sp_ty_prim p pa sel enc bs :
@@ -276,47 +286,47 @@ Section Main.
   Proof. reflexivity. Qed.
 
   Lemma dec_ty_struct name isparams fs pa sel enc :
-    dec_ty T true (TStruct name isparams fs) pa sel enc =
+    dec_ty T abort (TStruct name isparams fs) pa sel enc =
     (let use_enc := enc && isparams && first_is_tpm2b fs in
      let tid := if use_enc then TyEnc name else TyN name in
      bind (emit (sev pa tid)) (fun _ =>
      bind (if use_enc
            then match fs with
-                | FPlain n _ r => bind (dec_enc_param T true (pchild pa n)) (fun v => dec_fields T true r pa [(n, v)])
-                | _ => dec_fields T true fs pa []
+                | FPlain n _ r => bind (dec_enc_param T abort (pchild pa n)) (fun v => dec_fields T abort r pa [(n, v)])
+                | _ => dec_fields T abort fs pa []
                 end
-           else dec_fields T true fs pa []) (fun vals =>
+           else dec_fields T abort fs pa []) (fun vals =>
      ret (Some (VStruct_ tid (rev vals)))))).
   Proof. reflexivity. Qed.
   Lemma dec_ty_tpm2b_list name szf buf szp elem pa sel enc :
-    dec_ty T true (TTpm2bList name szf buf szp elem) pa sel enc =
-    dec_tpm2b_list true name szf buf szp (list_id elem) (fun p => dec_ty T true elem p None false) pa.
+    dec_ty T abort (TTpm2bList name szf buf szp elem) pa sel enc =
+    dec_tpm2b_list abort name szf buf szp (list_id elem) (fun p => dec_ty T abort elem p None false) pa.
   Proof. reflexivity. Qed.
   Lemma dec_ty_tpm2b_struct name szf buf szp inner pa sel enc :
-    dec_ty T true (TTpm2bStruct name szf buf szp inner) pa sel enc =
+    dec_ty T abort (TTpm2bStruct name szf buf szp inner) pa sel enc =
     bind (emit (sev pa (TyN name))) (fun _ =>
     let size_path := pchild pa szf in
-    bind (dec_prim true szp size_path) (fun szv =>
+    bind (dec_prim abort szp size_path) (fun szv =>
     let size := match as_int szv with Some z => z | None => 0 end in
     bind new_sc (fun cid =>
-    bind (set_constraint true cid size_path size) (fun _ =>
+    bind (set_constraint abort cid size_path size) (fun _ =>
     bind (append_lst cid) (fun _ =>
     if size =? 0 then
       bind (emit (sev (pchild pa buf) (ty_id inner))) (fun _ =>
-      bind (assert_done true cid) (fun _ =>
+      bind (assert_done abort cid) (fun _ =>
       ret (Some (VStruct_ (TyN name) [(szf, szv); (buf, None)]))))
     else
-      catch_exceeded true [cid]
-        (bind (dec_ty T true inner (pchild pa buf) None false) (fun bv =>
-         bind (assert_done true cid) (fun _ =>
+      catch_exceeded abort [cid]
+        (bind (dec_ty T abort inner (pchild pa buf) None false) (fun bv =>
+         bind (assert_done abort cid) (fun _ =>
          ret (Some (VStruct_ (TyN name) [(szf, szv); (buf, bv)])))))
         (ret None)))))).
   Proof. reflexivity. Qed.
   Lemma dec_ty_union name ar pa sel enc :
-    dec_ty T true (TUnion name ar) pa sel enc =
+    dec_ty T abort (TUnion name ar) pa sel enc =
     bind (emit (sev pa (TyN name))) (fun _ =>
     match select_arm ar sel with
-    | Some (n, _) => dec_arms T true ar name pa n
+    | Some (n, _) => dec_arms T abort ar name pa n
     | None => match sel with Some (tn, z) => fail (EValue pa tn z VSSelection) | None => internal_ IUnionAtRoot end
     end).
   Proof. reflexivity. Qed.
@@ -342,21 +352,21 @@ Section Main.
   Qed.
 
   Definition Sim_ty (t : ty) : Prop := forall pa sel enc bs v rest s,
-    sp_ty T t pa sel enc bs = Some (v, rest) -> all_valid v = true -> wf_st s -> inp s = bs ->
+    sp_ty T t pa sel enc bs = Some (v, rest) -> ok_leaves abort v = true -> wf_st s -> inp s = bs ->
     blen rest <= blen bs -> fits (view s) (blen bs - blen rest) ->
-    ok_run (dec_ty T true t pa sel enc) s (items_of v) rest (val_ok v).
+    ok_run (dec_ty T abort t pa sel enc) s (items_of v) rest (val_ok v).
 
   Definition Sim_fields_at (fs : fields) : Prop := forall pa rs rd bs kids rest s,
-    sp_fields T fs pa rs bs = Some (kids, rest) -> forallb all_valid kids = true -> R rs rd -> wf_st s -> inp s = bs ->
+    sp_fields T fs pa rs bs = Some (kids, rest) -> forallb (ok_leaves abort) kids = true -> R rs rd -> wf_st s -> inp s = bs ->
     fits (view s) (blen bs - blen rest) ->
-    ok_run (dec_fields T true fs pa rd) s (flat_map items_of kids) rest (fun _ => True).
+    ok_run (dec_fields T abort fs pa rd) s (flat_map items_of kids) rest (fun _ => True).
   Definition Sim_fields (fs : fields) : Prop :=
     Sim_fields_at fs /\ match fs with FPlain _ _ r => Sim_fields_at r | _ => True end.
 
   Definition Sim_arms (ar : arms) : Prop := forall uname pa target bs kids rest s,
-    sp_arms T ar pa target bs = Some (kids, rest) -> forallb all_valid kids = true -> wf_st s -> inp s = bs ->
+    sp_arms T ar pa target bs = Some (kids, rest) -> forallb (ok_leaves abort) kids = true -> wf_st s -> inp s = bs ->
     fits (view s) (blen bs - blen rest) ->
-    ok_run (dec_arms T true ar uname pa target) s (flat_map items_of kids) rest (fun a => as_typed_int a = None).
+    ok_run (dec_arms T abort ar uname pa target) s (flat_map items_of kids) rest (fun a => as_typed_int a = None).
   Definition Sim_armp (p : armp) : Prop :=
     match p with PNone => True | PTy t => Sim_ty t | PList elem _ => Sim_ty elem end.
 
@@ -429,28 +439,28 @@ Section Main.
     end.
   Proof. reflexivity. Qed.
   Lemma dec_fields_plain n t r pa rd :
-    dec_fields T true (FPlain n t r) pa rd =
-    bind (dec_ty T true t (pchild pa n) None false) (fun v => dec_fields T true r pa ((n, v) :: rd)).
+    dec_fields T abort (FPlain n t r) pa rd =
+    bind (dec_ty T abort t (pchild pa n) None false) (fun v => dec_fields T abort r pa ((n, v) :: rd)).
   Proof. reflexivity. Qed.
   Lemma dec_fields_list n elem r pa rd :
-    dec_fields T true (FList n elem r) pa rd =
+    dec_fields T abort (FList n elem r) pa rd =
     match last_nonlist rd with
     | Some cv =>
         match as_int cv with
         | Some count =>
-            bind (dec_array (list_id elem) (pchild pa n) count (fun p => dec_ty T true elem p None false))
-                 (fun v => dec_fields T true r pa ((n, v) :: rd))
+            bind (dec_array (list_id elem) (pchild pa n) count (fun p => dec_ty T abort elem p None false))
+                 (fun v => dec_fields T abort r pa ((n, v) :: rd))
         | None => internal_ INoCount
         end
     | None => internal_ INoCount
     end.
   Proof. reflexivity. Qed.
   Lemma dec_fields_union n seln u r pa rd :
-    dec_fields T true (FUnion n seln u r) pa rd =
+    dec_fields T abort (FUnion n seln u r) pa rd =
     match lookupS seln rd with
     | Some sv_ =>
         match as_typed_int sv_ with
-        | Some tz => bind (dec_ty T true u (pchild pa n) (Some tz) false) (fun v => dec_fields T true r pa ((n, v) :: rd))
+        | Some tz => bind (dec_ty T abort u (pchild pa n) (Some tz) false) (fun v => dec_fields T abort r pa ((n, v) :: rd))
         | None => internal_ INoSelector
         end
     | None => internal_ INoSelector
@@ -472,17 +482,17 @@ Section Main.
     else sp_arms T r pa target bs.
   Proof. reflexivity. Qed.
   Lemma dec_arms_cons n key p r uname pa target :
-    dec_arms T true (ACons n key p r) uname pa target =
+    dec_arms T abort (ACons n key p r) uname pa target =
     if String.eqb n target then
       match p with
       | PNone => ret (Some (VStruct_ (TyN uname) []))
-      | PTy t => bind (dec_ty T true t (pchild pa n) None false) (fun v => ret (Some (VStruct_ (TyN uname) [(n, v)])))
+      | PTy t => bind (dec_ty T abort t (pchild pa n) None false) (fun v => ret (Some (VStruct_ (TyN uname) [(n, v)])))
       | PList elem (Some cnt) =>
-          bind (dec_array (list_id elem) (pchild pa n) cnt (fun p => dec_ty T true elem p None false))
+          bind (dec_array (list_id elem) (pchild pa n) cnt (fun p => dec_ty T abort elem p None false))
                (fun v => ret (Some (VStruct_ (TyN uname) [(n, v)])))
       | PList _ None => internal_ INoListSize
       end
-    else dec_arms T true r uname pa target.
+    else dec_arms T abort r uname pa target.
   Proof. reflexivity. Qed.
 
   Lemma R_head_count cn tn c rs rd : R ((cn, Some (tn, c)) :: rs) rd -> exists cv, last_nonlist rd = Some cv /\ as_int cv = Some c.
@@ -491,7 +501,7 @@ Section Main.
     exists (Some (VInt_ tn c)). split; reflexivity.
   Qed.
 
-  Lemma incr_dec_prim p pa : incr (dec_prim true p pa).
+  Lemma incr_dec_prim p pa : incr (dec_prim abort p pa).
   Proof. apply (L_dec_prim (@incr) incr_lclosed). Qed.
 
   Lemma sp_tpm2b_list_len name szf buf szp lid f pa bs v rest :
@@ -505,27 +515,24 @@ Section Main.
   Qed.
 
   Lemma enc_param_sim pa bs v rest s :
-    sp_enc_param T pa bs = Some (v, rest) -> all_valid v = true -> wf_st s -> inp s = bs ->
+    sp_enc_param T pa bs = Some (v, rest) -> ok_leaves abort v = true -> wf_st s -> inp s = bs ->
     fits (view s) (blen bs - blen rest) ->
-    ok_run (dec_enc_param T true pa) s (items_of v) rest (fun a => as_typed_int a = None).
+    ok_run (dec_enc_param T abort pa) s (items_of v) rest (fun a => as_typed_int a = None).
   Proof.
     unfold sp_enc_param, dec_enc_param.
     destruct (t_enc_param T) as [| |name szf buf szp [ep| | | |]| |]; try discriminate.
     intros H AV W I F.
-    apply (tpm2b_list_sim (fun p b => match sp_prim ep p b with Some (v, _, r) => Some (v, r) | None => None end)
-                          (dec_prim true ep)) with (bs := bs); try assumption.
+    apply (tpm2b_list_sim abort (fun p b => match sp_prim ep p b with Some (v, _, r) => Some (v, r) | None => None end)
+                          (dec_prim abort ep)) with (bs := bs); try assumption.
     - intros p b v0 r s0 Hf AV0 W0 I0 L0 F0.
       destruct (sp_prim ep p b) as [[[v1 z1] r1]|] eqn:Ep; [|discriminate]. injection Hf as <- <-.
-      destruct (sp_prim_some _ _ _ _ _ _ Ep) as (h & _ & _ & _ & _ & Hv). subst v1. cbn [all_valid] in AV0.
-      eapply ok_weaken; [|apply (sim_prim ep p b _ z1 r1 s0 Ep AV0 W0 I0 F0)]. intros; exact Logic.I.
+      destruct (sp_prim_some _ _ _ _ _ _ Ep) as (h & _ & _ & _ & _ & Hv). subst v1. cbn [ok_leaves] in AV0.
+      eapply ok_weaken; [|apply (sim_prim abort ep p b _ z1 r1 s0 Ep AV0 W0 I0 F0)]. intros; exact Logic.I.
     - intros p. apply incr_dec_prim.
   Qed.
 
-  Lemma catch_true' A ids (m h : M A) : meq (catch_exceeded true ids m h) m.
-  Proof.
-    intros s. unfold catch_exceeded. destruct (m s) as [[tr1 s1] o1]. destruct o1 as [a|e| |k|]; try reflexivity.
-    destruct e; reflexivity.
-  Qed.
+  Lemma catch_ok A ab ids (m h : M A) s tr s' a : m s = (tr, s', Ok a) -> catch_exceeded ab ids m h s = (tr, s', Ok a).
+  Proof. intros E. unfold catch_exceeded. rewrite E. reflexivity. Qed.
 
   Lemma val_ok_node pa t kids a : as_typed_int a = None -> val_ok (SNode pa t kids) a.
   Proof. intros H. exact H. Qed.
@@ -534,17 +541,17 @@ Section Main.
   Proof.
     apply ty_mutind.
     - (* TPrim *)
-      intros p pa sel enc bs v rest s H AV W I L F. rewrite sp_ty_prim in H. change (dec_ty T true (TPrim p) pa sel enc) with (dec_prim true p pa).
+      intros p pa sel enc bs v rest s H AV W I L F. rewrite sp_ty_prim in H. change (dec_ty T abort (TPrim p) pa sel enc) with (dec_prim abort p pa).
       destruct (sp_prim p pa bs) as [[[v0 z] r]|] eqn:Ep; [|discriminate]. injection H as <- <-.
-      destruct (sp_prim_some _ _ _ _ _ _ Ep) as (h & _ & _ & _ & _ & Hv). subst v0. cbn [all_valid] in AV.
-      eapply ok_weaken; [|apply (sim_prim p pa bs _ z r s Ep AV W I F)]. intros a ->. reflexivity.
+      destruct (sp_prim_some _ _ _ _ _ _ Ep) as (h & _ & _ & _ & _ & Hv). subst v0. cbn [ok_leaves] in AV.
+      eapply ok_weaken; [|apply (sim_prim abort p pa bs _ z r s Ep AV W I F)]. intros a ->. reflexivity.
     - (* TStruct *)
       intros name isparams fs [IHf IHt] pa sel enc bs v rest s H AV W I L F. rewrite sp_ty_struct in H. rewrite dec_ty_struct. cbv zeta.
       destruct (enc && isparams && first_is_tpm2b fs) eqn:UE.
       + destruct fs as [|n t r|n e r|n sl u r]; try discriminate.
         destruct (sp_enc_param T (pchild pa n) bs) as [[v0 r1]|] eqn:Ee; [|discriminate].
         destruct (sp_fields T r pa [(n, None)] r1) as [[kids r2]|] eqn:Ef; [|discriminate]. injection H as <- <-.
-        cbn [all_valid forallb] in AV. apply andb_prop in AV as [AV0 AVk].
+        cbn [ok_leaves forallb] in AV. apply andb_prop in AV as [AV0 AVk].
         pose proof (sp_tpm2b_list_len_enc := I).
         assert (L1 : blen r1 <= blen bs).
         { unfold sp_enc_param in Ee. destruct (t_enc_param T) as [| |? ? ? ? [ep| | | |]| |]; try discriminate.
@@ -564,7 +571,7 @@ Section Main.
              ++ rewrite V2, I1, V1, I. replace (blen bs - blen bs) with 0 by lia. rewrite bump_0. exact F2.
         * intros s3 vals W3 I3 V3 _. apply ok_ret'; [exact W3|exact I3|reflexivity].
       + destruct (sp_fields T fs pa [] bs) as [[kids r]|] eqn:Ef; [|discriminate]. injection H as <- <-.
-        cbn [all_valid] in AV.
+        cbn [ok_leaves] in AV.
         replace (items_of (SNode pa (TyN name) kids))
           with ([INode pa (TyN name)] ++ (flat_map items_of kids ++ [])) by (cbn [items_of app]; rewrite app_nil_r; reflexivity).
         apply ok_bind with (mid := inp s) (P := fun _ => True); [apply ok_sev; exact W|]. intros s1 _ W1 I1 V1 _.
@@ -579,7 +586,7 @@ Section Main.
         destruct (split_at n r1) as [[region rest']|]; [|discriminate].
         destruct (sp_counted _ _ _ _ _) as [[lv [|x xs]]|]; try discriminate. injection H as <- _. eexists; reflexivity. }
       destruct Hv as [kids ->].
-      eapply ok_weaken; [|apply (tpm2b_list_sim (fun p b => sp_ty T elem p None false b) (fun p => dec_ty T true elem p None false)) with (bs := bs); try eassumption].
+      eapply ok_weaken; [|apply (tpm2b_list_sim abort (fun p b => sp_ty T elem p None false b) (fun p => dec_ty T abort elem p None false)) with (bs := bs); try eassumption].
       + intros a Ha. exact Ha.
       + intros p b v0 r s0 Hf AV0 W0 I0 L0 F0. eapply ok_weaken; [|apply (IH p None false b v0 r s0 Hf AV0 W0 I0 L0 F0)]. intros; exact Logic.I.
       + intros p. apply incr_dec_ty.
@@ -590,11 +597,11 @@ Section Main.
       destruct (n =? 0) eqn:Hn0.
       + (* empty payload *)
         apply Z.eqb_eq in Hn0. subst n. injection H as <- <-.
-        cbn [all_valid forallb] in AV. apply andb_prop in AV as [AVs _]. assert (Vs : valid szp 0 = true) by (subst szv; exact AVs).
+        cbn [ok_leaves forallb] in AV. apply andb_prop in AV as [AVs _]. assert (Vs : negb abort || valid szp 0 = true) by (subst szv; exact AVs).
         assert (HN : blen bs - blen r1 = pwidth szp) by (rewrite Hbs; unfold blen in *; rewrite app_length; lia).
         rewrite HN in F.
-        assert (P1 : ok_run (dec_prim true szp (pchild pa szf)) s (items_of szv) r1 (fun a => a = Some (VInt_ (pname szp) 0))).
-        { apply (sim_prim szp (pchild pa szf) bs szv 0 r1 s Ep Vs W I). rewrite HN. exact F. }
+        assert (P1 : ok_run (dec_prim abort szp (pchild pa szf)) s (items_of szv) r1 (fun a => a = Some (VInt_ (pname szp) 0))).
+        { apply (sim_prim abort szp (pchild pa szf) bs szv 0 r1 s Ep Vs W I). rewrite HN. exact F. }
         destruct P1 as (tr1 & s1 & a1 & c1 & E1 & Sh1 & Ic1 & I1 & V1 & W1 & ->).
         assert (Lc1 : blen c1 = pwidth szp).
         { rewrite I, Hbs in Ic1. apply (f_equal (@List.length Z)) in Ic1. rewrite !app_length in Ic1. unfold blen in *. lia. }
@@ -602,7 +609,7 @@ Section Main.
         destruct (new_sc_spec s1 W1) as (s2 & E2 & I2 & L2 & V2 & W2 & Len2 & G2).
         set (cid := List.length (store s1)) in *.
         assert (Fresh : ~ In cid (ids_of (view s2))) by (rewrite V2; apply fresh_not_in_view, W1).
-        destruct (set_constraint_spec cid (pchild pa szf) 0 s2 W2 ltac:(lia) ltac:(lia)) as (s3 & E3 & I3 & L3 & V3 & W3 & Len3 & G3 & G3').
+        destruct (set_constraint_spec abort cid (pchild pa szf) 0 s2 W2 ltac:(lia) ltac:(lia)) as (s3 & E3 & I3 & L3 & V3 & W3 & Len3 & G3 & G3').
         { rewrite V2, V1. apply Forall_forall. intros e He. right.
           assert (F0 : fits (bump (pwidth szp) (view s)) 0) by (apply (fits_split (view s) (pwidth szp) 0 Hw ltac:(lia)); rewrite Z.add_0_r; exact F).
           unfold fits in F0. rewrite Forall_forall in F0. apply F0, He. }
@@ -613,7 +620,7 @@ Section Main.
         { rewrite G3, G2. reflexivity. }
         assert (Ent : entry_of s3 cid = (cid, Some 0, 0)) by (unfold entry_of; rewrite G3, G2; reflexivity).
         rewrite Ent, V3, V2, V1 in V4.
-        destruct (assert_done_spec cid 0 (bump (pwidth szp) (view s)) s4 W4 V4) as (s6 & E6 & I6 & L6 & V6 & W6 & _).
+        destruct (assert_done_spec abort cid 0 (bump (pwidth szp) (view s)) s4 W4 V4) as (s6 & E6 & I6 & L6 & V6 & W6 & _).
         { rewrite ids_bump. intros Hx. apply Fresh. rewrite V2, V1, ids_bump. exact Hx. }
         exists (sev pa (TyN name) :: tr1 ++ [sev (pchild pa buf) (ty_id inner)]), s6,
                (Some (VStruct_ (TyN name) [(szf, Some (VInt_ (pname szp) 0)); (buf, None)])), c1.
@@ -633,13 +640,13 @@ Section Main.
         destruct (sp_ty T inner (pchild pa buf) None false region) as [[iv [|x xs]]|] eqn:Ei; try discriminate.
         injection H as <- <-.
         destruct (split_at_some _ _ _ _ Es) as (Hr1 & Hrl & Hnn).
-        cbn [all_valid forallb] in AV. apply andb_prop in AV as [AVs AVi]. apply andb_prop in AVi as [AVi _].
-        assert (Vs : valid szp n = true) by (subst szv; exact AVs).
+        cbn [ok_leaves forallb] in AV. apply andb_prop in AV as [AVs AVi]. apply andb_prop in AVi as [AVi _].
+        assert (Vs : negb abort || valid szp n = true) by (subst szv; exact AVs).
         assert (HN : blen bs - blen rest' = pwidth szp + n).
         { rewrite Hbs, Hr1. unfold blen in *. rewrite !app_length. lia. }
         rewrite HN in F. destruct (fits_split _ _ _ Hw Hnn F) as [F1 F2].
-        assert (P1 : ok_run (dec_prim true szp (pchild pa szf)) s (items_of szv) r1 (fun a => a = Some (VInt_ (pname szp) n))).
-        { apply (sim_prim szp (pchild pa szf) bs szv n r1 s Ep Vs W I).
+        assert (P1 : ok_run (dec_prim abort szp (pchild pa szf)) s (items_of szv) r1 (fun a => a = Some (VInt_ (pname szp) n))).
+        { apply (sim_prim abort szp (pchild pa szf) bs szv n r1 s Ep Vs W I).
           replace (blen bs - blen r1) with (pwidth szp) by (rewrite Hbs; unfold blen in *; rewrite app_length; lia). exact F1. }
         destruct P1 as (tr1 & s1 & a1 & c1 & E1 & Sh1 & Ic1 & I1 & V1 & W1 & ->).
         assert (Lc1 : blen c1 = pwidth szp).
@@ -648,7 +655,7 @@ Section Main.
         destruct (new_sc_spec s1 W1) as (s2 & E2 & I2 & L2 & V2 & W2 & Len2 & G2).
         set (cid := List.length (store s1)) in *.
         assert (Fresh : ~ In cid (ids_of (view s2))) by (rewrite V2; apply fresh_not_in_view, W1).
-        destruct (set_constraint_spec cid (pchild pa szf) n s2 W2 Hnn ltac:(lia)) as (s3 & E3 & I3 & L3 & V3 & W3 & Len3 & G3 & G3').
+        destruct (set_constraint_spec abort cid (pchild pa szf) n s2 W2 Hnn ltac:(lia)) as (s3 & E3 & I3 & L3 & V3 & W3 & Len3 & G3 & G3').
         { rewrite V2, V1. apply Forall_forall. intros e He. right. unfold fits in F2. rewrite Forall_forall in F2. apply F2, He. }
         rewrite (map_set_entry_fresh cid n _ Fresh) in V3.
         assert (NotListed : ~ In cid (lst s3)).
@@ -658,11 +665,11 @@ Section Main.
         assert (Ent : entry_of s3 cid = (cid, Some n, 0)) by (unfold entry_of; rewrite G3, G2; reflexivity).
         rewrite Ent, V3, V2, V1 in V4.
         set (s4r := mkSt region (store s4) (lst s4)).
-        assert (Pin : ok_run (dec_ty T true inner (pchild pa buf) None false) s4r (items_of iv) [] (val_ok iv)).
+        assert (Pin : ok_run (dec_ty T abort inner (pchild pa buf) None false) s4r (items_of iv) [] (val_ok iv)).
         { apply (IH (pchild pa buf) None false region iv [] s4r Ei AVi W4 eq_refl); [unfold blen; cbn; lia|].
           change (view s4r) with (view s4). rewrite V4. replace (blen region - blen []) with n by (unfold blen in *; cbn; lia).
           apply Forall_app. split; [exact F2|]. constructor; [cbn; lia|constructor]. }
-        apply (ok_run_ext _ _ _ _ _ rest' _ (incr_dec_ty T true inner (pchild pa buf) None false)) in Pin.
+        apply (ok_run_ext _ _ _ _ _ rest' _ (incr_dec_ty T abort inner (pchild pa buf) None false)) in Pin.
         cbn [app] in Pin.
         assert (Es4 : ext s4r rest' = s4).
         { unfold ext, s4r. cbn [inp store lst]. destruct s4 as [i4 st4 l4]. cbn [inp store lst] in *. f_equal. congruence. }
@@ -672,14 +679,15 @@ Section Main.
         { assert (Hi4 : inp s4 = region ++ rest') by congruence. rewrite Hi4 in Ic5. apply (f_equal (@List.length Z)) in Ic5.
           rewrite !app_length in Ic5. unfold blen in *. lia. }
         rewrite Lc5, V4, bump_app, bump_bump in V5. cbn [bump map bump_entry] in V5. rewrite Z.add_0_l in V5.
-        destruct (assert_done_spec cid n (bump (pwidth szp + n) (view s)) s5 W5 V5) as (s6 & E6 & I6 & L6 & V6 & W6 & _).
+        destruct (assert_done_spec abort cid n (bump (pwidth szp + n) (view s)) s5 W5 V5) as (s6 & E6 & I6 & L6 & V6 & W6 & _).
         { rewrite ids_bump. intros Hx. apply Fresh. rewrite V2, V1, ids_bump. exact Hx. }
         exists (sev pa (TyN name) :: tr1 ++ tr5), s6, (Some (VStruct_ (TyN name) [(szf, Some (VInt_ (pname szp) n)); (buf, a5)])), (c1 ++ c5).
         split.
         * unfold bind at 1. cbn [emit]. unfold bind at 1. rewrite E1. cbn [as_int].
           unfold bind at 1. rewrite E2. unfold bind at 1. fold cid. rewrite E3. unfold bind at 1. rewrite E4.
-          replace (n =? 0) with false by lia. rewrite catch_true'.
-          unfold bind at 1. rewrite E5. unfold bind at 1. rewrite E6. cbn [ret app]. rewrite ?app_nil_r. reflexivity.
+          replace (n =? 0) with false by lia.
+          erewrite catch_ok; [|unfold bind at 1; rewrite E5; unfold bind at 1; rewrite E6; cbn [ret]; reflexivity].
+          cbn [app]. rewrite ?app_nil_r. reflexivity.
         * split.
           -- cbn [items_of flat_map]. rewrite app_nil_r. apply (sh_node pa (TyN name)). apply shape_app; assumption.
           -- split; [rewrite Ic1, <- I1; cbn; rewrite <- app_assoc; f_equal; congruence|].
@@ -689,7 +697,7 @@ Section Main.
       intros name ar IH pa sel enc bs v rest s H AV W I L F. rewrite sp_ty_union in H. rewrite dec_ty_union.
       destruct (select_arm ar sel) as [[n ap]|]; [|discriminate].
       destruct (sp_arms T ar pa n bs) as [[kids r]|] eqn:Ea; [|discriminate]. injection H as <- <-.
-      cbn [all_valid] in AV.
+      cbn [ok_leaves] in AV.
       replace (items_of (SNode pa (TyN name) kids)) with ([INode pa (TyN name)] ++ flat_map items_of kids) by reflexivity.
       apply ok_bind with (mid := inp s) (P := fun _ => True); [apply ok_sev; exact W|]. intros s1 _ W1 I1 V1 _.
       apply (IH name pa n bs kids r s1 Ea AV W1 ltac:(congruence)).
@@ -723,7 +731,7 @@ Section Main.
       destruct (fits_split (view s) (blen bs - blen r1) (blen r1 - blen r2) ltac:(lia) ltac:(lia)
                   ltac:(replace (blen bs - blen r1 + (blen r1 - blen r2)) with (blen bs - blen r2) by lia; exact F)) as [F1 F2].
       cbn [flat_map]. apply ok_bind with (mid := r1) (P := fun a => as_typed_int a = None).
-      + apply (array_sim (fun p b => sp_ty T elem p None false b) (fun p => dec_ty T true elem p None false)) with (bs := bs); try assumption.
+      + apply (array_sim abort (fun p b => sp_ty T elem p None false b) (fun p => dec_ty T abort elem p None false)) with (bs := bs); try assumption.
         intros p b v0 r0 s0 Hf AV0 W0 I0 L0 F0. eapply ok_weaken; [|apply (IHe p None false b v0 r0 s0 Hf AV0 W0 I0 L0 F0)]. intros; exact Logic.I.
       + intros s1 a W1 I1 V1 Ha. apply (IHr pa _ ((n, a) :: rd) r1 vs r2 s1 Ef AV2); [|exact W1|exact I1|rewrite V1, I; exact F2].
         constructor; [|exact HR]. split; [reflexivity|exact Ha].
@@ -757,7 +765,7 @@ Section Main.
       + destruct (chk bs _) as [[v r1]|] eqn:C; [|discriminate]. destruct (chk_some _ _ _ _ C) as [Hs L1]. injection H as <- <-.
         cbn [forallb flat_map] in *. apply andb_prop in AV as [AV1 _]. rewrite app_nil_r.
         rewrite <- (app_nil_r (items_of v)). apply ok_bind with (mid := r1) (P := fun _ => True).
-        * eapply ok_weaken; [|apply (array_sim (fun p b => sp_ty T elem p None false b) (fun p => dec_ty T true elem p None false)) with (bs := bs); try eassumption].
+        * eapply ok_weaken; [|apply (array_sim abort (fun p b => sp_ty T elem p None false b) (fun p => dec_ty T abort elem p None false)) with (bs := bs); try eassumption].
           -- intros; exact Logic.I.
           -- intros p b v0 r0 s0 Hf AV0 W0 I0 L0 F0. eapply ok_weaken; [|apply (IHp p None false b v0 r0 s0 Hf AV0 W0 I0 L0 F0)]. intros; exact Logic.I.
         * intros s1 a W1 I1 V1 _. apply ok_ret'; [exact W1|exact I1|reflexivity].
